@@ -125,6 +125,23 @@ def C05(ctx):
     # every op sequence of <= 6 (thorough 8) ops under shrunk limits: bounds + totality of the specification
     ctx.mc("free", "MC_VmFree.tla", "MC_VmFree_thorough.cfg" if ctx.thorough else "MC_VmFree.cfg", workers=8, timeout=3000)
     _vm_program_check(ctx, ["exh", "rand"], profiles=("dev", "release"))
+    # every single op on boundary operands (MIN, -1, 0, 1, MAX ...) in builds with and without overflow
+    # checks: totality is first of all a per-op matter (seeded change T-C05: `MIN % -1` panics)
+    single = 0
+    for prof in ("dev", "release"):
+        binary = vrun.cargo_build(prof)
+        files, counters, sums = _sharded_driver(ctx, binary, "vmops", 8 if ctx.thorough else 4)
+        moved = []
+        for f in files:
+            g = f.replace(".ndjson", f".{prof}.ndjson")
+            os.rename(f, g)
+            if os.path.exists(f + ".raw"):
+                os.rename(f + ".raw", g + ".raw")
+            moved.append(g)
+        ctx.validate(moved, "TraceVm.tla", "TraceVm.cfg", classify=_classify_vm)
+        single += sum(s_["runs"] for s_ in sums)
+        ctx.cov["single_op_panics_" + prof] = counters.get("panic", 0)
+    ctx.cov["single_op_runs"] = single
 
 
 def C07(ctx):
@@ -146,7 +163,7 @@ def C10(ctx):
 
 
 def _bytecode_check(ctx, modes, invariants_note):
-    ctx.mc("bytecode", "MC_Bytecode.tla", "MC_Bytecode_thorough.cfg" if ctx.thorough else "MC_Bytecode.cfg", workers=12)
+    ctx.mc("bytecode", "MC_Bytecode.tla", "MC_Bytecode_thorough.cfg" if ctx.thorough else "MC_Bytecode.cfg", workers=12, timeout=7200)
     binary = vrun.cargo_build("dev")
     runs = 0
     for mode in modes:
@@ -664,7 +681,7 @@ def selftest(ctx):
     # 2. corrupting one recorded field makes the trace specification reject at that line
     binary = vrun.cargo_build("dev")
     cases = [
-        ("vmops", {"ops": "ADD,STOR,KRNG"}, "TraceVm.tla", "TraceVm.cfg", [('"g":1,', '"g":2,'), ('"sl":', '"sl":1')]),
+        ("vmops", {"ops": "ADD,STOR,KRNG"}, "TraceVm.tla", "TraceVm.cfg", [('"g":1,', '"g":2,'), ('"sl":', '"sl":1'), ('"class":"Stack.Empty"', '"class":"Stack.Overflow"')]),
         ("checker", {"mode": "perm"}, "TraceChecker.tla", "TraceChecker.cfg", [('"gas":', '"gas":1'), ('-99]', '-99,-99]')]),
         ("lock", {}, "TraceLock.tla", "TraceLock.cfg", [('"e":"enter"', '"e":"read"')]),
         ("bytecode", {"mode": "effects"}, "TraceBytecode.tla", "TraceBytecode.cfg", [("true", "false")]),
